@@ -1,5 +1,5 @@
 import MidoModel.Smf
-import MidoModel.Generated.Src
+import MidoModel.Generated.SrcFileIO
 import MidoProofs.SrcTie.Basic
 import MidoProofs.SrcTie.Codec
 import MidoProofs.SrcTie.Vlq
